@@ -252,12 +252,106 @@ def check_case(case, ev=None, scratch=None):
             scratch.clean()
 
 
+THREAD_SRC = """import threading
+
+import dds
+import vlog
+
+
+def left():
+    vlog.rec('left')
+    return 'left'
+
+
+def right():
+    vlog.rec('right')
+    return 'right'
+
+
+def keep_left():
+    return dds.keep('/thr/left', left)
+
+
+def keep_right():
+    return dds.keep('/thr/right', right)
+
+
+def check():
+    vlog.rec('check')
+    return 'checked'
+
+
+def pipeline():
+    vlog.rec('pipeline')
+    out = []
+    for target in (keep_left, keep_right):
+        t = threading.Thread(target=lambda: out.append(target()))
+        t.start()
+        t.join()
+    c = dds.keep('/thr/check', check)
+    return '+'.join(out) + ':' + c
+"""
+
+
+def thread_strategy():
+    from hypothesis import strategies as st
+
+    return st.fixed_dictionaries({"threads": st.just(True), "exc": st.sampled_from(EXCS), "store": st.sampled_from(STORES).map(list)})
+
+
+def check_threads(case, ev=None, scratch=None):
+    """Kept sub-results computed in worker threads (one after the other) of a function under evaluation belong to that evaluation:
+    when a later function raises, none of the paths is committed; the repaired pipeline then runs normally."""
+    from ..harness import proc
+
+    own = scratch is None
+    scratch = scratch or common.Scratch("vf-c10")
+    root_dir, store_dir = scratch.sub(), scratch.sub()
+    for rel, content in {"pk/__init__.py": "", "pk/m0.py": THREAD_SRC}.items():
+        p = os.path.join(root_dir, rel)
+        os.makedirs(os.path.dirname(p), exist_ok=True)
+        open(p, "w").write(content)
+    w = proc.Worker()
+    tag = f"[keeps made from worker threads, {case['store'][0]}, {case['exc']}]"
+    paths = ["/thr/left", "/thr/right", "/thr/check"]
+    try:
+        w.call("init", root=root_dir, accepted=["pk"], store={"kind": case["store"][0], "dir": store_dir, "cache": case["store"][1]})
+        r = w.call("eval", module="pk.m0", func="pipeline", style="eval", fail={"node": "check", "exc": case["exc"]})
+        if r["exc"] is None:
+            raise Violation(f"{tag} check raised but the evaluation returned {r['value']!r}", case)
+        if not r["exc"]["same_object"]:
+            raise Violation(f"{tag} another object came out of dds: {r['exc']['type']}: {r['exc']['msg'][:200]}", case)
+        if not r["ctx_clean"]:
+            raise Violation(f"{tag} dds is still inside an evaluation after the failure", case)
+        if r.get("synced"):
+            raise Violation(f"{tag} paths were committed although the evaluation failed: {[list(d) for d in r['synced']]}", case)
+        for p in paths:
+            l = w.call("load", path=p)
+            if l["exc"] is None:
+                raise Violation(f"{tag} after the failed evaluation the path {p} loads {l['value']!r} (it was committed)", case)
+        r = w.call("eval", module="pk.m0", func="pipeline", style="eval")
+        if r["exc"] is not None or r["value"] != "left+right:checked":
+            raise Violation(f"{tag} the evaluation after the failure gave {r['exc'] or r['value']!r}", case)
+        for p, want in zip(paths, ("left", "right", "checked")):
+            l = w.call("load", path=p)
+            if l["exc"] is not None or l["value"] != want:
+                raise Violation(f"{tag} after the successful evaluation the path {p} loads {l['exc'] or l['value']!r}", case)
+        if ev is not None:
+            ev.case(case, True, features=["keeps-from-worker-threads", "exc:" + case["exc"], "store:" + case["store"][0]])
+    finally:
+        w.close()
+        if own:
+            scratch.clean()
+
+
 def shard(idx, n, tier, seed, count):
     ev = Ev()
     scratch = common.Scratch("vf-c10")
     opts = {"exclude": common.open_features(ID), "data_den": 2, "max_funcs": 8}
     try:
         v = common.hyp_drive(case_strategy(opts), lambda c: check_case(c, ev, scratch), seed * 1000 + 1000 + idx, count, ev)
+        if v is None and idx % 4 == 3:
+            v = common.hyp_drive(thread_strategy(), lambda c: check_threads(c, ev, scratch), seed * 1000 + 1050 + idx, 3 if tier == "quick" else 12, ev)
     finally:
         scratch.clean()
     return ev, v
@@ -269,4 +363,6 @@ def run(tier, seed, scale=1.0):
 
 
 def replay(case):
+    if case.get("threads"):
+        return check_threads(case)
     check_case(case)
